@@ -21,8 +21,10 @@ from .model import MPoly, build, spec_model, from_ndpoly, same, describe, mono_k
 NAMES = tuple(f"q{i}" for i in range(13))
 SHAPES = [(), (1,), (2,), (3,), (1, 1), (2, 2), (1, 3), (2, 1, 2), (1, 2, 2)]
 POOLS = {"int64": [-12, -3, -2, -1, -1, 0, 1, 1, 2, 3, 10], "bool": [True, True, False],
-         "float64": [-2.5, -1.0, -0.5, 0.0, 0.5, 1.0, 1.5, 0.1, 1e-10, -1e+20, 123456.789, -0.001],
-         "complex128": [-2.0, -1.0, -0.5, 0.0, 1.0, 1.5]}          # real and imaginary parts drawn independently
+         "float64": [-2.5, -1.0, -0.5, 0.0, 0.5, 1.0, 1.5, 0.1, 1e-10, -1e+20, 123456.789, -0.001,
+                     # next to +-1 / 0 without being it: the coefficient may be dropped from the text only when it IS 1 or -1
+                     1.000001, -0.9999999, 1 - 2.0 ** -53, -1 - 2.0 ** -52, 1 + 1e-9, 5e-324],
+         "complex128": [-2.0, -1.0, -0.5, 0.0, 1.0, 1.5, 1e-9, 1 + 1e-9]}          # real and imaginary parts drawn independently
 SIGNS = [("**", "*"), ("^", "·"), ("^", " ")]
 FLAGS = list(itertools.product((False, True), repeat=3))
 
